@@ -788,6 +788,22 @@ class Effect(DaeObject):
                 if value is not None:
                     shadnode.append(getPropNode(prop, value))
 
+        # the bump map is the first <texture> inside an <extra> of the effect (that is where load() finds it)
+        bumpnode = self.xmlnode.find('.//%s//%s' % (tag('extra'), tag('texture')))
+        if self.bumpmap is not None:
+            self.bumpmap.save()
+        if bumpnode is not (None if self.bumpmap is None else self.bumpmap.xmlnode):
+            if bumpnode is None:
+                tecnode.append(E.extra(E.technique(E.bump(self.bumpmap.xmlnode), profile='FCOLLADA')))
+            else:
+                for parent in self.xmlnode.iter():
+                    if bumpnode in list(parent):
+                        if self.bumpmap is None:
+                            parent.remove(bumpnode)
+                        else:
+                            parent[list(parent).index(bumpnode)] = self.bumpmap.xmlnode
+                        break
+
         double_sided_node = profilenode.find('.//%s//%s' % (tag('extra'), tag('double_sided')))
         if double_sided_node is None or double_sided_node.text is None:
             extranode = profilenode.find(tag('extra'))
